@@ -12,22 +12,28 @@ ASSUME ThmRecompress
 
 \* payload classes: id -> <<size, kind>>; kind 0 incompressible, 1 compressible, 2 = the payload is itself a gzip stream,
 \* 3 = itself a brotli stream (content that looks like an encoding is still content)
-ClassJson == [i \in {"1", "2", "3", "4", "5", "6", "7", "8"} |->
+\* 4 = the EMPTY payload (a tile of zero bytes is a tile wherever the container can hold one: "empty-ish" in the quantifier)
+ClassJson == [i \in {"1", "2", "3", "4", "5", "6", "7", "8", "9"} |->
                  CASE i = "1" -> <<5, 0>> [] i = "2" -> <<1024, 0>> [] i = "3" -> <<2048, 1>>
                    [] i = "4" -> <<70000, 1>> [] i = "5" -> <<40960, 0>> [] i = "6" -> <<999, 1>>
-                   [] i = "7" -> <<600, 2>> [] OTHER -> <<600, 3>>]
+                   [] i = "7" -> <<600, 2>> [] i = "8" -> <<600, 3>> [] OTHER -> <<0, 4>>]
 TileSets == {
     << <<0, 0, 0, 1>>, <<1, 0, 0, 2>>, <<1, 1, 0, 3>>, <<1, 0, 1, 4>>, <<1, 1, 1, 5>> >>,
     << <<3, 2, 5, 6>>, <<3, 3, 5, 6>>, <<9, 255, 255, 4>>, <<9, 256, 255, 1>>, <<9, 256, 256, 3>> >>,
-    << <<2, 1, 1, 7>>, <<2, 2, 1, 8>>, <<2, 1, 2, 3>> >> }
+    << <<2, 1, 1, 7>>, <<2, 2, 1, 8>>, <<2, 1, 2, 3>> >>,
+    << <<1, 0, 0, 6>>, <<1, 1, 0, 9>>, <<2, 3, 3, 1>> >> }
+HasEmpty(ts) == \E i \in 1..Len(ts) : ts[i][4] = 9
 
 Expressible(f, out) == f # "mbtiles" \/ out = "gzip"      \* MBTiles holds pbf tiles only gzip-compressed
+\* versatiles and PMTiles encode "no tile" as length 0: a zero-byte tile stored uncompressed cannot be expressed there
+ExpressibleSet(f, out, ts) == ~(HasEmpty(ts) /\ out = "none" /\ f \in {"versatiles", "pmtiles"})
 
 Emit(rec) == PrintT(<<"REPLAY", ToJson(rec)>>)
 Init ==
     /\ src \in Codec /\ target \in Codec \cup {"keep"} /\ force \in {0, 1}
     /\ fmt \in Formats /\ tset \in TileSets
     /\ Expressible(fmt, DeclaredOut(src, target))
+    /\ ExpressibleSet(fmt, DeclaredOut(src, target), tset)
     /\ Emit([k |-> "recomp", src_tc |-> src, target |-> target, force |-> force, fmt |-> fmt, tiles |-> tset, classes |-> ClassJson])
 Next == UNCHANGED vars
 Spec == Init /\ [][Next]_vars
